@@ -4,7 +4,11 @@ package main
 
 import (
 	"fmt"
+	"net/http"
+	"net/url"
 	"time"
+
+	"github.com/crewjam/saml"
 
 	. "verifharness/internal/core"
 )
@@ -283,6 +287,114 @@ func runC02(c *Ctx) {
 	}
 	c02Lexical(c, g)
 	randomCombinations(c, g, 400, false)
+	c02MovingClock(c)
+}
+
+// The library clock is read when the message is validated: through the HTTP entry point with an
+// artifact, that is after the back-channel resolution. A stub resolver advances TimeNow by `step`
+// while it "works"; every bound is placed inside the interval the clock jumps over, so that the
+// decision at the instant of validation differs from the decision at the instant the browser's
+// request arrived.
+type movingRT struct {
+	stubRT
+	advance func()
+}
+
+func (m *movingRT) RoundTrip(req *http.Request) (*http.Response, error) {
+	m.advance()
+	return m.stubRT.RoundTrip(req)
+}
+
+func c02MovingClock(c *Ctx) {
+	g := c.Group("c02clock", nil, "bool", "check_bools")
+	const id = "id-7f3a9c0e1b"
+	n := 0
+	for _, tl := range [][2]int64{{int64(90 * time.Second), int64(180 * time.Second)}, {0, 0}, {int64(7 * time.Second), int64(3 * time.Second)}} {
+		for _, step := range []int64{int64(60 * time.Second), 2 * ms} {
+			for field := 0; field < 8; field++ {
+				n++
+				cfg := defaultCfg()
+				cfg.MaxIssueDelay, cfg.MaxClockSkew = tl[0], tl[1]
+				t0 := baseNow
+				t1 := t0 + step
+				mid := (t0+t1)/2/ms*ms + 0
+				if step == 2*ms {
+					mid = t0/ms*ms + ms
+				}
+				rs, as := validSpecs(cfg, t1, fmt.Sprintf("clk%d", n))
+				rs.IRT, as.Confs[0].IRT = sp(id), sp(id)
+				as.Confs = append(as.Confs, ConfSpec{IRT: sp(id), Recipient: sp(cfg.AcsURL), NOA: as.Confs[0].NOA})
+				arIssue := sp(fmtMS(t1 / ms * ms))
+				want := false
+				name := ""
+				switch field {
+				case 0:
+					name, want = "control", true
+				case 1:
+					name = "response-issue-instant"
+					rs.Issue = sp(fmtMS(mid - cfg.MaxIssueDelay))
+				case 2:
+					name = "assertion-issue-instant"
+					as.Issue = fmtMS(mid - cfg.MaxIssueDelay)
+				case 3:
+					name = "conditions-not-on-or-after"
+					as.NOA = sp(fmtMS(mid - cfg.MaxClockSkew))
+				case 4:
+					name = "confirmation-not-on-or-after"
+					as.Confs[0].NOA = sp(fmtMS(mid - cfg.MaxClockSkew))
+				case 5:
+					name = "second-confirmation-not-on-or-after"
+					as.Confs[1].NOA = sp(fmtMS(mid - cfg.MaxClockSkew))
+				case 6:
+					name = "artifact-response-issue-instant"
+					arIssue = sp(fmtMS(mid - cfg.MaxIssueDelay))
+				case 7: // too early when the request arrived, inside the window when validated
+					name, want = "conditions-not-before", true
+					as.NB = sp(fmtMS(mid + cfg.MaxClockSkew))
+				}
+				r := buildResponse(rs, buildAssertion(as))
+				m := &movingRT{}
+				m.reply = func(resolveID string) string {
+					ars := RespSpec{Tag: "ArtifactResponse", ID: fmt.Sprintf("arc-%d", n), IRT: sp(resolveID), Issue: arIssue, Issuer: sp(cfg.IdpEntity), Status: sp(statusSuccess)}
+					ar := buildResponse(ars, r.Clone())
+					SignInto(ar, 0)
+					return soapWrap(ar).Render()
+				}
+				var accepted, direct bool
+				panicked := ""
+				withGlobals(cfg, t0, func() {
+					m.advance = func() { saml.TimeNow = func() time.Time { return time.Unix(0, t1).UTC() } }
+					spv := cfg.SP()
+					spv.HTTPClient = &http.Client{Transport: m}
+					spv.IDPMetadata.IDPSSODescriptors[0].ArtifactResolutionServices = []saml.Endpoint{{Binding: saml.SOAPBinding, Location: "https://idp.example.com/resolve"}}
+					func() {
+						defer func() {
+							if p := recover(); p != nil {
+								panicked = fmt.Sprint(p)
+							}
+						}()
+						req, _ := http.NewRequest("POST", cfg.AcsURL, nil)
+						req.Form = url.Values{"SAMLart": {"AAQAAMh48/1oXIM+sDo7Dh2qMp1HM4IF5DaRNmDj6RdUmllwn9jJHyEgIi8="}}
+						req.PostForm = req.Form
+						a, err := spv.ParseResponse(req, []string{id})
+						accepted = err == nil && a != nil
+						// the same bytes, presented to the direct entry point at the instant of validation
+						u := mustURL(cfg.AcsURL)
+						a2, err2 := spv.ParseXMLArtifactResponse([]byte(m.reply(m.seen)), []string{id}, m.seen, u)
+						direct = err2 == nil && a2 != nil
+					}()
+				})
+				ok := accepted == want && direct == want && panicked == ""
+				c.Count("class/moving-clock")
+				c.Count("moving_clock_field/" + name)
+				c.Add(g, &Case{Key: map[string]string{"class": "moving-clock", "field": name, "step_ns": fmt.Sprint(step), "tolerances": fmt.Sprint(tl)},
+					Input: map[string]any{"request_arrived": time.Unix(0, t0).UTC().String(), "validated_at": time.Unix(0, t1).UTC().String(), "bound_at": fmtMS(mid), "field": name,
+						"max_issue_delay_ns": tl[0], "max_clock_skew_ns": tl[1]},
+					Obs:  map[string]any{"accepted_via_ParseResponse": accepted, "accepted_via_ParseXMLArtifactResponse": direct, "expected": want, "panic": panicked},
+					Term: fmt.Sprint(ok), ImplSpecOK: Bptr(ok), Dedup: fmt.Sprintf("%s/%d/%v", name, step, tl)})
+			}
+		}
+	}
 }
 
 // lexical forms the parser admits: zones, fractional digits, rounding across a
